@@ -264,6 +264,271 @@ def nontrivial(body, tabs, bs):
     return partial and cut_inside
 
 
+# ------------------------------------------------------------------ ExtentMap / IndMap conformance
+XCLASSES = {"empty-insert", "unchanged", "already-unmapped", "append", "prepend", "prepend-next", "insert-before", "insert-after",
+            "single-replace", "single-delete", "last-unmap", "last-remap-merge-next", "last-remap-insert", "first-unmap",
+            "first-remap-merge-prev", "first-remap-insert", "middle-unmap", "middle-remap", "append-uninit", "leaf-block",
+            "punch", "punch-front", "punch-whole", "punch-tail", "punch-split", "punch-start-in-hole", "punch-truncate"}
+
+
+def gen_xset(rng, nops, maxl, pbase):
+    """single-block map / remap / unmap calls, biased towards neighbours of what is mapped so that every branch of
+    ext2fs_extent_set_bmap is reached; ends with a few punches.  The mirror kept here is only the abstract map."""
+    m = {}                       # lblk -> (p, u)
+    used = set()
+    ever = set()
+    lines = ["reserve %d 6000" % pbase]
+    nextp = [pbase]
+    def fresh():
+        nextp[0] += rng.choice([2, 3, 7])
+        return nextp[0]
+    for _ in range(nops):
+        k = rng.random()
+        L = rng.randrange(maxl)
+        if m and rng.random() < 0.75:
+            L = max(0, min(maxl - 1, rng.choice(list(m)) + rng.choice([-2, -1, -1, 0, 0, 1, 1, 2])))
+        if k < 0.22 and m:                                   # unmap
+            P, u = 0, 0
+        else:
+            u = 1 if rng.random() < 0.3 else 0
+            cands = []
+            if L - 1 in m and m[L - 1][0] + 1 not in ever: cands.append(m[L - 1][0] + 1)
+            if L + 1 in m and m[L + 1][0] - 1 not in ever and m[L + 1][0] - 1 > pbase: cands.append(m[L + 1][0] - 1)
+            if L in m and rng.random() < 0.4:                # same block, maybe other flag (uninit -> init conversion)
+                cands = [m[L][0]]
+            P = rng.choice(cands) if cands and rng.random() < 0.7 else fresh()
+            if (L - 1 in m) and rng.random() < 0.5: u = m[L - 1][1]
+            elif (L + 1 in m) and rng.random() < 0.5: u = m[L + 1][1]
+            if P in ever and not (L in m and m[L][0] == P):
+                P = fresh()             # a released block may have become a tree node meanwhile: never map it again
+            while P in ever and not (L in m and m[L][0] == P):
+                P = fresh()
+        if P == 0 and not m:
+            continue                                         # precondition: no unmap on an empty tree
+        lines.append("xset 0 %d %d %d" % (L, P, u))
+        if L in m:
+            used.discard(m[L][0])
+        if P:
+            m[L] = (P, u); used.add(P); ever.add(P)
+        else:
+            m.pop(L, None)
+    for _ in range(rng.randrange(1, 4)):
+        if not m:
+            break
+        a = max(0, rng.choice(list(m)) + rng.choice([-1, 0, 0, 1]))
+        b = a + rng.choice([0, 1, 2, 5, 30])
+        if rng.random() < 0.2:
+            b = -1
+        lines.append("xpunch 0 %d %d" % (a, b))
+        for L in list(m):
+            if L >= a and (b < 0 or L <= b):
+                del m[L]
+    return lines
+
+
+def gen_xfrag(rng, n, bs_blocks):
+    """many one-block extents (every other logical block) -> inode root overflows into leaf blocks, then punches"""
+    lines = ["reserve 9000 6000"]
+    order = list(range(n))
+    if rng.random() < 0.5:
+        rng.shuffle(order)
+    for i in order:
+        lines.append("xset 0 %d %d %d" % (2 * i, 9000 + 3 * i, 0))
+    for _ in range(4):
+        a = rng.randrange(0, 2 * n); b = a + rng.choice([0, 1, 3, 10, 40])
+        lines.append("xpunch 0 %d %d" % (a, b if rng.random() < 0.8 else -1))
+    return lines
+
+
+def gen_cluster_punch(rng):
+    """bigalloc: populate through the file API (so that logical and physical clusters line up), dump, punch"""
+    lines = []
+    for _ in range(rng.randrange(1, 4)):
+        lines.append("bwrite 0 %d %d %d" % (rng.choice([0, 3, 15, 16, 17, 30, 32, 40]), rng.choice([1, 2, 5, 14, 16, 20]), rng.randrange(1, 9)))
+    lines.append("xdump 0")
+    for _ in range(rng.randrange(1, 4)):
+        a = rng.choice([0, 1, 5, 15, 16, 17, 20, 31, 32, 33, 47])
+        lines.append("xpunch 0 %d %d" % (a, rng.choice([a, a + 1, a + 10, a + 15, a + 16, a + 31, -1])))
+    return lines
+
+
+IND_BOUNDS = [0, 1, 5, 11, 12, 13, 30, 260, 266, 267, 268, 269, 275, 523, 524, 530, 531, 540, 598, 599]
+
+
+def gen_ind(rng, pattern, npunch, exhaustive_pair=None):
+    lines = []
+    if pattern == "full":
+        lines.append("bwrite 0 0 600 1")
+    elif pattern == "sparse":
+        for a, n in ((0, 5), (10, 5), (250, 30), (500, 50), (590, 10)):
+            lines.append("bwrite 0 %d %d 1" % (a, n))
+    elif pattern == "tind":
+        for a, n in ((10, 4), (266, 4), (65800, 10)):
+            lines.append("bwrite 0 %d %d 1" % (a, n))
+    if exhaustive_pair:
+        lines.append("bpunch 0 %d %d" % exhaustive_pair)
+        return lines
+    bounds = IND_BOUNDS + ([65799, 65803, 65804, 65805, 65809] if pattern == "tind" else [])
+    for _ in range(npunch):
+        a = rng.choice(bounds)
+        b = rng.choice([x for x in bounds if x >= a] + [-1])
+        lines.append("bpunch 0 %d %d" % (a, b))
+    return lines
+
+
+def exec_map(job):
+    b, drv, tmpl, wdir, idx, body = job
+    img = os.path.join(wdir, "m%06d.img" % idx)
+    shutil.copyfile(tmpl, img)
+    script = "mkfile 0 0\n" + "\n".join(body) + "\n"
+    try:
+        pr = subprocess.run([drv, img], input=script.encode(), stdout=subprocess.PIPE, stderr=subprocess.PIPE, env=tool_env(b), timeout=300)
+    except subprocess.TimeoutExpired:
+        os.unlink(img)
+        return dict(lines=[], crash="driver timeout (hang)", fsck="")
+    raw = [l for l in pr.stdout.decode().splitlines() if l.startswith("{")]
+    res = dict(lines=raw, crash=None, fsck="")
+    if pr.returncode == 3:
+        res["broken"] = "filedrv refused the script: " + pr.stderr.decode()[-300:]
+    elif pr.returncode != 0:
+        res["crash"] = "filedrv died with %s: %s" % (pr.returncode, pr.stderr.decode()[-200:])
+    os.unlink(img)
+    return res
+
+
+def map_trace(kind, raw):
+    """driver lines -> behaviour for Trace_ExtentMap / Trace_IndMap (first line resets the model)"""
+    out = []
+    if kind == "ext":
+        out.append('{"e":"xreset"}')
+        out += raw
+    else:
+        first = json.loads(raw[0]) if raw else None
+        out.append(json.dumps({"e": "breset", "map": first["before"] if first else []}, separators=(",", ":")))
+        out += raw
+    return out
+
+
+def run_tlc_trace(mod, cfg, lines, work, name, timeout=900):
+    p = os.path.join(work, name + ".ndjson")
+    with open(p, "w") as f:
+        f.write("\n".join(lines) + "\n")
+    r = T.tlc(mod, cfg, workers=1, timeout=timeout, env={"TRACE": p}, xmx="3g")
+    return r
+
+
+def validate_map(kind, cfgname, behaviours, work, ev, tag):
+    """returns (failing behaviour indices with (matched, inv, tail)), classes seen"""
+    mod = os.path.join(SPEC, "Trace_ExtentMap.tla" if kind == "ext" else "Trace_IndMap.tla")
+    cfg = os.path.join(SPEC, cfgname)
+    groups, cur, n = [], [], 0
+    for i, t in enumerate(behaviours):
+        if cur and n + len(t) > 1500:
+            groups.append(cur); cur = []; n = 0
+        cur.append(i); n += len(t)
+    if cur:
+        groups.append(cur)
+    failing, classes = {}, set()
+    import re
+    def one(gi_g):
+        gi, g = gi_g
+        lines = [ln for i in g for ln in behaviours[i]]
+        return g, run_tlc_trace(mod, cfg, lines, work, "%s_%s_%d_%d" % (tag, kind, gi, len(g)))
+    rounds = 0
+    while groups:
+        rounds += 1
+        with cf.ThreadPoolExecutor(max_workers=JOBS) as ex:
+            out = list(ex.map(one, list(enumerate(groups))))
+        groups = []
+        for g, r in out:
+            ev.cov["states"] += r.distinct; ev.cov["transitions"] += r.generated
+            for m in re.finditer(r'"CLASSES",\s*\{([^}]*)\}', r.out, re.S):
+                classes |= {x.strip().strip('"') for x in m.group(1).split(",") if x.strip()}
+            if r.ok:
+                continue
+            rejected = bool(re.search(r"postcondition|Invariant \S+ is violated", r.out, re.I)) and not re.search(r"Error evaluating|evaluating the expression|was not in the domain|Attempted to", r.out)
+            if not rejected:
+                die_broken("TLC failed on a %s trace: %s\n%s" % (kind, r.error, r.out[-1500:]))
+            matched = r.depth - 1
+            pos = 0
+            for k, bi in enumerate(g):
+                if matched < pos + len(behaviours[bi]):
+                    inv = None if r.violated == "POSTCONDITION" else r.violated
+                    failing[bi] = (matched - pos, inv, r.out[-800:])
+                    if g[k + 1:]:
+                        groups.append(g[k + 1:])
+                    break
+                pos += len(behaviours[bi])
+        if len(failing) > 30 or rounds > 60:
+            break
+    return failing, classes
+
+
+def run_maps(b, drv, tier, work, ev, vd, rng):
+    tm = make_templates(b, work, ["ext4_1k", "ext2_1k", "bigalloc"])
+    jobs = []          # (kind, cfg, template, body)
+    nx = 60 if tier == "quick" else 1500
+    for i in range(nx):
+        jobs.append(("ext", "Trace_ExtentMap.cfg", "ext4_1k", gen_xset(rng, rng.choice([6, 12, 25, 40]), rng.choice([8, 12, 30]), 9000)))
+    for i in range(3 if tier == "quick" else 40):
+        jobs.append(("ext", "Trace_ExtentMap.cfg", "ext4_1k", gen_xfrag(rng, rng.choice([6, 30, 90, 100] if tier == "quick" else [6, 30, 90, 100, 180, 400]), 1)))
+    for i in range(15 if tier == "quick" else 400):
+        jobs.append(("ext", "Trace_ExtentMap_c16.cfg", "bigalloc", gen_cluster_punch(rng)))
+    if tier == "quick":
+        for pat in ("full", "sparse", "tind"):
+            for i in range(12):
+                jobs.append(("ind", "Trace_IndMap.cfg", "ext2_1k", gen_ind(rng, pat, 3)))
+    else:
+        for pat in ("full", "sparse"):
+            for a in IND_BOUNDS:
+                for c in [x for x in IND_BOUNDS if x >= a] + [-1]:
+                    jobs.append(("ind", "Trace_IndMap.cfg", "ext2_1k", gen_ind(rng, pat, 1, (a, c))))
+        for i in range(150):
+            jobs.append(("ind", "Trace_IndMap.cfg", "ext2_1k", gen_ind(rng, rng.choice(["full", "sparse", "tind"]), 4)))
+    ex_jobs = [(b, drv, tm[j[2]], work, i, j[3]) for i, j in enumerate(jobs)]
+    with cf.ThreadPoolExecutor(max_workers=JOBS) as ex:
+        results = list(ex.map(exec_map, ex_jobs))
+    nfail = 0
+    allclasses = set()
+    for (kind, cfgname) in (("ext", "Trace_ExtentMap.cfg"), ("ext", "Trace_ExtentMap_c16.cfg"), ("ind", "Trace_IndMap.cfg")):
+        idx = [i for i, j in enumerate(jobs) if j[0] == kind and j[1] == cfgname]
+        for i in idx:
+            if results[i].get("broken"):
+                die_broken(results[i]["broken"] + " script=%s" % jobs[i][3][:5])
+        beh = [map_trace(kind, results[i]["lines"]) for i in idx]
+        failing, classes = validate_map(kind, cfgname, beh, work, ev, cfgname[:-4])
+        allclasses |= classes
+        for k, i in enumerate(idx):
+            r = results[i]
+            if r["crash"] and k not in failing:
+                failing[k] = (len(r["lines"]), None, r["crash"])
+        for k in sorted(failing):
+            i = idx[k]
+            matched, inv, tail = failing[k]
+            # re-run alone before reporting
+            rr = run_tlc_trace(os.path.join(SPEC, "Trace_ExtentMap.tla" if kind == "ext" else "Trace_IndMap.tla"), os.path.join(SPEC, cfgname), beh[k], work, "confirm_map")
+            if rr.ok and not results[i]["crash"]:
+                continue
+            nfail += 1
+            opi = matched - 1
+            line = results[i]["lines"][opi] if 0 <= opi < len(results[i]["lines"]) else ""
+            evn = json.loads(line)["e"] if line else "?"
+            what = "%s: %s at call %d (%s) of %s: %s" % ("ExtentMap" if kind == "ext" else "IndMap",
+                    ("library crash " + results[i]["crash"]) if results[i]["crash"] else ("invariant %s violated" % inv if inv else "the real code diverges from the transcription"),
+                    opi, jobs[i][3][opi + (0 if kind == "ext" else 0)] if 0 <= opi < len(jobs[i][3]) else "", jobs[i][2], line[:500])
+            vd.violation("%s:%s@%s" % ("map-inv-" + inv if inv else "map-diverge", kind, evn), what,
+                         {"kind": "map", "mapkind": kind, "cfg": cfgname, "profile": jobs[i][2], "script": jobs[i][3], "first_unmatched_call": opi, "tlc_tail": tail[-600:]})
+        ev.cov["traces_validated_against_impl"] += len(idx) - len([k for k in failing])
+        ev.cov["evaluations"] += len(idx)
+    ev.cov["map_transition_classes_seen"] = sorted(allclasses)
+    missing = XCLASSES - allclasses
+    if missing and nfail == 0:
+        die_broken("vacuity: ExtentMap transition classes never exercised by the implementation tests: %s" % sorted(missing))
+    for i in (0, len(jobs) - 1):
+        ev.sample({"map_test": jobs[i][2], "script": jobs[i][3][:10], "last_line": json.loads(results[i]["lines"][-1]) if results[i]["lines"] else None})
+    return nfail
+
+
 # ------------------------------------------------------------------ model checking
 def model_check(ev, tier, work, vd):
     runs = []
@@ -453,6 +718,7 @@ def run(tier):
         model_check(ev, tier, work, vd)
         rng = random.Random(seed())
         run_filedata(b, drv, tier, work, ev, vd, rng)
+        run_maps(b, drv, tier, work, ev, vd, rng)
         ev.cov["rule"] = ("histories over {write, setsize, punch, falloc x4 modes, read, flush, reopen, remount} on 2 files / 7 cut points, concretised by the "
                           "boundary tables of each profile (block +-1, cluster +-1, 12 / 12+A logical blocks, leaf capacity 4 / (bs-12)/12, inline 60 / limit) plus seeded "
                           "picks from the boundary catalogue; non-trivial = history with a partial-block overwrite of written data AND a truncate/punch cutting "
@@ -498,4 +764,22 @@ def replay(path):
 
 
 def replay_map(b, drv, rp, work, path):
-    die_broken("map-level replays not implemented yet")
+    tm = make_templates(b, work, [rp["profile"]])
+    r = exec_map((b, drv, tm[rp["profile"]], work, 0, rp["script"]))
+    if r.get("broken"):
+        die_broken(r["broken"])
+    kind = rp["mapkind"]
+    beh = map_trace(kind, r["lines"])
+    rr = run_tlc_trace(os.path.join(SPEC, "Trace_ExtentMap.tla" if kind == "ext" else "Trace_IndMap.tla"), os.path.join(SPEC, rp["cfg"]), beh, work, "replay_map")
+    if r["crash"] or not rr.ok:
+        if not r["crash"] and not re_rejected(rr.out):
+            die_broken("TLC failed: %s\n%s" % (rr.error, rr.out[-1200:]))
+        k = rr.depth - 2
+        print("diverges at call %d: %s %s" % (k, r["lines"][k][:600] if 0 <= k < len(r["lines"]) else "", r["crash"] or ""))
+        print("VIOLATION property=%s replay=%s" % (PID, path)); return 1
+    print("replay accepted (%d calls)" % len(r["lines"])); return 0
+
+
+def re_rejected(out):
+    import re
+    return bool(re.search(r"postcondition|Invariant \S+ is violated", out, re.I)) and not re.search(r"Error evaluating|evaluating the expression|was not in the domain|Attempted to", out)
